@@ -3,6 +3,7 @@ from an import (Tracer, guard_at, strip, strip_casts, walk, fmt, callee, const_e
 from mir import loc_str
 from shared import atomic_call, field_of_receiver
 from muxcommon import *
+import rules_c08
 
 EXPLANATION = (
     "(R1) An empty Push must never be mistaken for EOF: the reader reports EOF through an empty buffer, so either "
@@ -167,6 +168,19 @@ def check(facts, rep, tier, cfg):
                 else:
                     rep.bad("C05.R4", "%s/closed-check" % b.path, where, "credit can be taken (and a Push sent) without checking the closed flag: writes after shutdown/abort are transmitted instead of failing with BrokenPipe")
     # ---- R3 half-close (reaction-table cell)
+    rep.rule("C05.R5", "teardown EOF comes after the data: frames still buffered in the WebSocket source are dispatched before the flow table is drained")
+    wd, res = rules_c08.teardown_outcomes(facts, crate)
+    if wd is None:
+        rep.bad("C05.R5", "wind-down", "", "no function drains the flow table (teardown anchor missing)")
+    else:
+        rep.analysed(wd)
+        for val, label in ((0, "failure"), (1, "local-drop")):
+            okd, detail = rules_c08.source_dispatch_before_eof(res.get(val, []))
+            w5 = "%s (%s)" % (loc_str(wd.loc), wd.path)
+            if okd and res.get(val):
+                rep.ok("C05.R5", "source-before-drain/%s" % label, w5, detail)
+            else:
+                rep.bad("C05.R5", "source-before-drain/%s" % label, w5, detail if res.get(val) else "no terminating teardown path")
     rep.rule("C05.R3", "Finish x Established only drops the inbound sender: no flow-table removal, no closed flag (half-close); EOF sources are the Finish / Reset / teardown cells")
     import rules_c10
     sub = type(rep)(rep.prop, rep.tier, rep.config)
